@@ -1,4 +1,123 @@
-import AkVerif.Lemmas.LLTerm
-/-! # C03 (under construction) -/
+import AkVerif.Lemmas.LLC03
+/-!
+# C03 — left-recursive grammars are rejected; accepted grammars always terminate
+
+Property theorems only.  Model: `LL.recCheck` (`_verify_grammar_structure_part2`, with the repaired
+treatment of an already examined nullable symbol), `LL.construct`, `LL.Parser.parse` = `LL.run`.
+`Reach1 G N X Y` is "`X → α Y β` is a rule of the dictionary `G` with every symbol of `α` in `N`";
+`Plus` its transitive closure.
+
+What is *not* a theorem here: that a cycle of the factorised dictionary (on which the constructor
+runs the check) exists iff the user's dictionary has one; that step is covered by the
+correspondence and by the oracle (reference left-recursion test on the user's productions).
+-/
 namespace C03
+open LL Ak
+
+/-- **The recursion check is exact**, for every dictionary with distinct keys whose symbols are
+terminals or keys, every nullable list and **every order** in which the start symbols are taken
+(so for every assignment of names): `GrammarIsRecursive` iff some symbol reaches itself without
+consuming a token; `ok` iff there is no such symbol; nothing else is ever answered (no `KeyError`,
+no `IndexError`, the fuel always suffices). -/
+theorem recCheck_iff {σ : Type} [DecidableEq σ] (G : Prods σ) (terms nulls order : List σ)
+    (hnd : (G.map (·.1)).Nodup) (hdisj : ∀ k ∈ G.map (·.1), k ∉ terms)
+    (hknown : ∀ X rules, (X, rules) ∈ G → ∀ r ∈ rules, ∀ s ∈ r.rhs, s ∈ terms ∨ s ∈ G.map (·.1))
+    (hord : ∀ k ∈ G.map (·.1), k ∈ order) (hord' : ∀ s ∈ order, s ∈ terms ∨ s ∈ G.map (·.1)) :
+    (recCheck G terms nulls order = .error .grammarIsRecursive ↔ ∃ X, Plus (Reach1 G nulls) X X) ∧
+    (recCheck G terms nulls order = .ok () ↔ ¬ ∃ X, Plus (Reach1 G nulls) X X) :=
+  recCheck_rec_iff hnd hdisj hknown hord hord'
+
+/-- a grammar the constructor accepts has no cycle (in its factorised dictionary, with the nullable
+set the constructor computed) -/
+theorem accepted_no_cycle (inp : CtorIn) (P : Parser) (hP : construct inp = .ok P) :
+    ¬ ∃ X, Plus (Reach1 P.prods P.nullables) X X := by
+  have hB := construct_built hP
+  have h1 := verifyPart1_ok hB.hV
+  obtain ⟨hnd, _⟩ := built_struct hB
+  have hknown : ∀ X rules, (X, rules) ∈ P.prods → ∀ r ∈ rules, ∀ s ∈ r.rhs,
+      s ∈ P.terminals ∨ s ∈ P.prods.map (·.1) :=
+    fun X rules hm r hr s hs => h1.known s (mem_psyms.2 ⟨X, rules, hm, r, hr, hs⟩)
+  exact ((recCheck_rec_iff hnd (fun k hk => h1.disjoint k hk) hknown (fun k hk => mem_sortedKeys.2 hk)
+    (fun s hs => Or.inr (mem_sortedKeys.1 hs))).2).1 hB.hR
+
+/-- **Stack bound** (generic): under the hypotheses of the termination theorem, a stack satisfying
+the invariant has at most `(|tokens| + 1) · (R + 1)` frames, `R` bounding the ranks of its symbols:
+from the bottom frame to the top one the pairs `(|tokens| − start, rank sym)` strictly decrease
+(a child opened at its parent's start position means the parent's collected values are all
+nullable, hence `parent ▷ child`). -/
+theorem stack_bound {σ : Type} [DecidableEq σ] (C : TCtx σ) (hC : TCtxOK C) (R : Nat)
+    (st : List (Frame σ)) (h : TStack C st) (hR : ∀ f ∈ st, C.rank f.sym ≤ R) :
+    st.length ≤ (C.toks.length + 1) * (R + 1) :=
+  tstack_bound hC R st h hR
+
+/-- **Stack bound, composed**: for an accepted grammar there is a constant `B` such that every
+stack reached by the parse loop on any input has at most `(|tokens| + 1) · B` frames — the stack
+never grows without bound. -/
+theorem stack_bound_parse (inp : CtorIn) (P : Parser) (hP : construct inp = .ok P) :
+    ∃ B, ∀ (raw : List (List Char × List Char)) (n : Nat) (st : List (Frame Sym)),
+      iter P.cfg (P.tokens raw) n (initStack startSym P.start endSym) = .cont st →
+        st.length ≤ ((P.tokens raw).length + 1) * B :=
+  stack_bound_of_built (construct_built hP)
+
+/-- **Termination of the parse loop** (generic), for every table — ambiguous or not — and every
+token list: if the computed nullable set is closed under the rules, a rank decreases along
+"can start with, behind nullables", and table entries are non-empty lists of rules of the symbol
+(`TCtxOK`), then from any one-frame stack satisfying the invariant `run` does not run out of fuel. -/
+theorem run_terminates {σ : Type} [DecidableEq σ] (C : TCtx σ) (hC : TCtxOK C) (b : Frame σ)
+    (h : TStack C [b]) : ∃ k, ∀ fuel, k ≤ fuel → run C.G C.toks fuel [b] ≠ .error .outOfFuel :=
+  LL.run_terminates hC b h
+
+/-- **Termination, composed**: every grammar the constructor accepts (any names, both
+`smart_factorization` values) terminates on every input; `TCtxOK` is discharged from the model:
+closure from the exit of the nullable loop, the rank from `recCheck … = ok` (order of
+"blackening"), the table from `mkTable`. No assumption on the input. -/
+theorem parse_terminates (inp : CtorIn) (P : Parser) (hP : construct inp = .ok P)
+    (raw : List (List Char × List Char)) :
+    ∃ k, ∀ fuel, k ≤ fuel → P.parse raw fuel ≠ .error .outOfFuel :=
+  parse_terminates_of_built (construct_built hP) (built_struct (construct_built hP)).1 raw
+
+/-- **Totality**: on every input `parse` returns a tree or raises `ParsingError` — it neither loops
+nor hits one of the `IndexError` places of the loop (`tokens[cur]` behind `$END$`, an empty stack,
+`prod_rs[cur_prod_id]`, the final `assert`). -/
+theorem parse_total (inp : CtorIn) (P : Parser) (hP : construct inp = .ok P)
+    (raw : List (List Char × List Char)) :
+    ∃ k, ∀ fuel, k ≤ fuel → (∃ t, P.parse raw fuel = .ok t) ∨ P.parse raw fuel = .error .parsingError :=
+  parse_total_of_built (construct_built hP) raw
+
+/-! Non-vacuity: the defect witness `E → A E X | Y ; A → Z | ε` (left recursion hidden behind the
+earlier-sorted nullable `A`) is rejected with `GrammarIsRecursive` by the model of the repaired
+check, for both settings; its cycle `E ▷ E` is exhibited; the same grammar without the recursion is
+accepted and parses. -/
+def witness (smart : Bool) : CtorIn :=
+  { groups := ["SPACE".toList, "X".toList, "Y".toList, "Z".toList], syn := [], kw := [], skip := none,
+    start := "E".toList,
+    prods := [("E".toList, [["A".toList, "E".toList, "X".toList], ["Y".toList]]),
+              ("A".toList, [["Z".toList], []])],
+    smart := smart }
+
+def isRec (inp : CtorIn) : Bool :=
+  match construct inp with
+  | .error .grammarIsRecursive => true
+  | _ => false
+
+example : isRec (witness true) = true := by decide +kernel
+example : isRec (witness false) = true := by decide +kernel
+
+def wG : Prods Sym :=
+  [(Sym.user "E", [⟨[Sym.user "A", Sym.user "E", Sym.user "X"], 0⟩, ⟨[Sym.user "Y"], 1⟩]),
+   (Sym.user "A", [⟨[Sym.user "Z"], 2⟩, ⟨[], 3⟩])]
+
+example : Plus (Reach1 wG [Sym.user "A"]) (Sym.user "E") (Sym.user "E") :=
+  Plus.one ⟨[⟨[Sym.user "A", Sym.user "E", Sym.user "X"], 0⟩, ⟨[Sym.user "Y"], 1⟩],
+    ⟨[Sym.user "A", Sym.user "E", Sym.user "X"], 0⟩, 1, by simp [wG], by simp, by simp, by simp⟩
+
+def okInp : CtorIn :=
+  { (witness true) with prods := [("E".toList, [["A".toList, "Y".toList, "E".toList], ["Y".toList]]),
+                                   ("A".toList, [["Z".toList], []])] }
+
+example : (match construct okInp with
+    | .ok P => (match P.parse [("Y".toList, "y".toList), ("Y".toList, "y".toList)] 1000 with
+                | .ok _ => true | .error _ => false)
+    | .error _ => false) = true := by decide +kernel
+
 end C03
